@@ -634,6 +634,46 @@ func checkMemoIdentity(p *core.Prog, r *core.Result) {
 		}
 	}
 	r.Floor("R7.12", n, 3, "memo accesses of the encoder")
+	// inside the accessors the map itself is keyed by the value parameter (an interface holding the value: the memo keeps
+	// every memoized object alive). A key derived from the value - its address as an integer, a hash, a (type, pointer)
+	// pair - does not retain the object: a temporary produced by a host pickler is collected during the encoding, its
+	// address is reused by a later object, and that object is written as a back-reference to the dead one.
+	na := 0
+	for _, fn := range []*ssa.Function{memoize, memoized} {
+		core.Instrs(fn, func(in ssa.Instruction) {
+			var m, key ssa.Value
+			switch x := in.(type) {
+			case *ssa.MapUpdate:
+				m, key = x.Map, x.Key
+			case *ssa.Lookup:
+				m, key = x.X, x.Index
+			default:
+				return
+			}
+			if !core.LoadOfField(m, pkgPickle, "Encoder", "memo") {
+				return
+			}
+			na++
+			k := key
+			for {
+				switch x := k.(type) {
+				case *ssa.ChangeInterface:
+					k = x.X
+					continue
+				case *ssa.MakeInterface:
+					if _, isIface := x.X.Type().Underlying().(*types.Interface); isIface {
+						k = x.X
+						continue
+					}
+				}
+				break
+			}
+			prm, isPrm := k.(*ssa.Parameter)
+			_, keyIsIface := key.Type().Underlying().(*types.Interface)
+			r.Check(isPrm && paramIndex(fn, prm) == 1 && keyIsIface, "R7.12", fmt.Sprintf("%s#map-key-%d", fname(fn), na), p.InstrPos(in), "the memo map is keyed by the value itself (an interface value that keeps the object alive)", "the memo map is keyed by something derived from the value (an address, a hash, a type/pointer pair) rather than the value itself: the memo no longer keeps memoized objects alive, so the address of a collected temporary can be reused by a different object, which is then written as a back-reference to the dead one and decodes as its contents")
+		})
+	}
+	r.Floor("R7.12", na, 2, "map accesses of the memo in memoize/memoized")
 }
 
 // checkDecodedFromPayload implements R7.13: every value the decoder pushes is built from the payload of the opcode
